@@ -24,7 +24,26 @@ fn gen(r: &mut Rng, _cfg: &RunCfg) -> Case {
         1 => String::new(),
         _ => gen_text(r, TextDomain::Clean),
     };
-    let total = if r.chance(1, 12) { r.range(60, 200) } else { r.range(0, 60) };
+    let mut text = text;
+    let total = if r.chance(1, 40) {
+        // large totals (padding of more than 65535 columns): short single-paragraph text so that the result stays small
+        text = gen_line(r, TextDomain::Clean);
+        if text.len() > 48 {
+            let mut cut = 48;
+            while !text.is_char_boundary(cut) {
+                cut -= 1;
+            }
+            text.truncate(cut);
+            if !crate::oracle::ansi::clean_ansi(&text) {
+                text = "short text".to_string();
+            }
+        }
+        *r.pick(&[65534usize, 65535, 65536, 65537, 65540, 70000, 131072, 200000])
+    } else if r.chance(1, 12) {
+        r.range(60, 200)
+    } else {
+        r.range(0, 60)
+    };
     let mut o = opts::options(r, DOM, total);
     if r.chance(5, 6) {
         o.ii.clear();
@@ -132,6 +151,9 @@ pub fn check(case: &Case, obs: &mut Obs) -> Verdict {
     if inner < cols {
         obs.bump("columns_clamped_to_width_1");
     }
+    if o.width > 65535 {
+        obs.bump("total_width_above_65535");
+    }
     Verdict::held(
         nrows >= 2 && cols >= 2,
         h(&[o.shape(), bucket(nrows), cols as u64, any_wide as u64, (rem_seen.unwrap_or(0) > 0) as u64, (inner < cols) as u64, !left.is_empty() as u64, !mid.is_empty() as u64]),
@@ -186,13 +208,13 @@ fn extra(cfg: &RunCfg, w: &mut Worker) {
 pub fn prop() -> Prop {
     Prop {
         id: "C20",
-        rule: "cases = hostile texts (5/6 clean) x columns 1..=6 (1/10: 7..=16) x total width 0..=60 (1/12: up to 200) x gaps from 13 strings (empty, multi-byte, wide, coloured) x option sets (both algorithms / separators, built-in splitters, break_words on/off, occasionally indents) + the full grid columns x widths on fixed texts; rows are rebuilt from wrap(text) at the computed column width in column-major order; a panic is a violation; non-trivial = >= 2 rows and >= 2 columns; distinct = (option shape, row bucket, columns, protruding line, remainder, clamped columns, gaps present)",
+        rule: "cases = hostile texts (5/6 clean) x columns 1..=6 (1/10: 7..=16) x total width 0..=60 (1/12: up to 200; 1/40: 65534..200000 with a short text) x gaps from 13 strings (empty, multi-byte, wide, coloured) x option sets (both algorithms / separators, built-in splitters, break_words on/off, occasionally indents) + the full grid columns x widths on fixed texts; rows are rebuilt from wrap(text) at the computed column width in column-major order; a panic is a violation; non-trivial = >= 2 rows and >= 2 columns; distinct = (option shape, row bucket, columns, protruding line, remainder, clamped columns, gaps present)",
         gen,
         check,
         panic_is_violation: true,
         budget: (1500000, 48000000),
         extra: Some(extra),
-        required: &["protruding_line", "multi_row_multi_column", "ragged_last_column", "nonzero_remainder", "columns_clamped_to_width_1"],
+        required: &["total_width_above_65535", "protruding_line", "multi_row_multi_column", "ragged_last_column", "nonzero_remainder", "columns_clamped_to_width_1"],
         known: None,
     }
 }
